@@ -115,6 +115,12 @@ pub fn strings() -> Vec<&'static str> {
     ]
 }
 
+/// Strings that mean something to a built-in: unit names (with the degree sign), zone names, duration and
+/// timestamp text, a broken and a valid regular expression.
+pub fn dictionary() -> Vec<&'static str> {
+    vec!["°C", "°", "kg", "US/Pacific", "1h30m", "(a", "a+", "2024-02-29T12:00:00+01:00"]
+}
+
 pub fn bytes() -> Vec<Vec<u8>> {
     vec![
         vec![],
@@ -193,6 +199,7 @@ pub fn map_of(entries: &[(&str, CelValue)]) -> CelValue {
 pub fn others() -> Vec<CelValue> {
     let mut v: Vec<CelValue> = Vec::new();
     v.extend(strings().into_iter().take(12).map(|s| CelValue::String(s.to_string())));
+    v.extend(dictionary().into_iter().map(|s| CelValue::String(s.to_string())));
     v.extend(bytes().into_iter().take(6).map(CelValue::from_bytes));
     v.push(CelValue::Null);
     v.push(CelValue::List(vec![]));
@@ -266,7 +273,7 @@ pub fn quick_indices() -> Vec<usize> {
             CelValue::UInt(u) => [0, 2, u64::MAX].contains(u),
             CelValue::Float(f) => f.is_nan() || f.is_infinite() || [0.0, -1.0, 1.5, 1e300].contains(f),
             CelValue::Bool(_) | CelValue::Null | CelValue::Type(_) | CelValue::Err(_) => true,
-            CelValue::String(s) => ["", "a", "ab", "é", "日本", "a b"].contains(&s.as_str()),
+            CelValue::String(s) => ["", "a", "ab", "é", "日本", "a b"].contains(&s.as_str()) || dictionary().contains(&s.as_str()),
             CelValue::Bytes(b) => b.len() <= 1 && (b.len() == 0 || b.as_slice()[0] == 0xff || b.as_slice()[0] == 0x61),
             CelValue::List(l) => l.len() <= 1 || matches!(l[0], CelValue::String(_)),
             CelValue::Map(m) => m.len() <= 1 && !m.values().any(|v| matches!(v, CelValue::UInt(_))),
